@@ -11,9 +11,12 @@ returned `bs`, followed by one `poll_request`) and `eof`.  What it shows to the 
 the requests handed to the service with the body bytes they received (`calls`), the status
 lines written (`statuses`) and whether the connection future has completed (`closed`).
 
-Scope: persistent requests, and schedules in which the bytes that complete one body-carrying
-request are not read together with later bytes (the overlap logic — queued messages, the payload
-slot of a later request, Connection: close with pipelining — is model B of properties C02/C03).
+Scope: persistent requests and this one handler shape.  The dispatcher's queue of pipelined
+messages is not represented: with the handler answering as soon as its body is complete, a
+queued request is started right after its predecessor's response, so per read the observable
+result is the same as decoding message by message — which is what the correspondence checks on
+*every* read schedule (including reads that hold the end of one request and the head and part
+of the body of the next) since the dispatcher's F1c defect was repaired (`4ad0000`).
 Import-free (core only).
 -/
 namespace ActixModel.H1
